@@ -303,4 +303,45 @@ theorem pollHead_err (role : Role) (S : Src σ) (H : Hdr) (st : St σ) (o : FOut
     simp only [hn]
     cases o <;> first | rfl | exact absurd ho (by simp [IsErr])
 
+/-! ### the guard in front of `poll_recv_trailers` (repair of D-06t) -/
+
+/-- When the source has the guard `if self.stream.has_data() { return Ready(Err(StreamError::StreamError
+    { code, .. })) }` (`Gen.ReqArms.trailersGuard = some code`), the model of the whole function,
+    `pollRecvTrailersG`, answers that very stream error while a DATA payload is outstanding and leaves
+    the state alone; behind the guard it is `pollRecvTrailers`, whose arms are tied above.  (On a
+    source without the guard the table says `none` and this lemma says nothing: there the function is
+    `pollRecvTrailers` alone, `assert!` included.) -/
+theorem trailersGuard_agrees (c : Nat) (hc : Gen.ReqArms.trailersGuard = some c) (S : Src σ) (H : Hdr) (st : St σ) :
+    (S.hasData st.src = true → pollRecvTrailersG S H st = (.errStream c, st)) ∧
+    (S.hasData st.src = false → pollRecvTrailersG S H st = pollRecvTrailers S H st) := by
+  have hcode : c = CODE_H3_FRAME_UNEXPECTED := by
+    unfold Gen.ReqArms.trailersGuard at hc
+    first
+      | (cases hc; rfl)
+      | cases hc
+  subst hcode
+  constructor
+  · intro hd; simp [pollRecvTrailersG, hd]
+  · intro hd; simp [pollRecvTrailersG, hd]
+
+/-- the function the scenario machine calls (`pollRecvTrailersT`, driven by the generated table) is the
+    repaired function when the source has the guard, and the unguarded one when it has not -/
+theorem pollRecvTrailersT_eq (S : Src σ) (H : Hdr) (st : St σ) :
+    (∀ c, Gen.ReqArms.trailersGuard = some c → pollRecvTrailersT S H st = pollRecvTrailersG S H st) ∧
+    (Gen.ReqArms.trailersGuard = none → pollRecvTrailersT S H st = pollRecvTrailers S H st) := by
+  constructor
+  · intro c hc
+    have hcode : c = CODE_H3_FRAME_UNEXPECTED := by
+      have hc' := hc
+      unfold Gen.ReqArms.trailersGuard at hc'
+      first
+        | (cases hc'; rfl)
+        | cases hc'
+    subst hcode
+    unfold pollRecvTrailersT pollRecvTrailersG
+    rw [hc]
+  · intro hn
+    unfold pollRecvTrailersT
+    rw [hn]
+
 end H3.GenAgree.Req
